@@ -35,7 +35,11 @@ impl Tier {
     }
 }
 
-pub const VERIF: &str = "/verif";
+/// Root of the verification tree (evidence, known findings, replays). Overridable so that
+/// experiments on seeded changes can run from a scratch copy without touching /verif.
+pub fn verif_root() -> String {
+    std::env::var("HX_VERIF_ROOT").unwrap_or_else(|_| "/verif".to_string())
+}
 
 /// Slow-mode journal: the worker records what it is about to execute.
 pub struct JournalFile(pub String);
@@ -169,7 +173,7 @@ fn run_shard(exe: &str, id: &str, tier: Tier, shard: usize, nshards: usize, resu
 
 /// After a worker died inside item `idx`: rerun that item alone with a journal to localise it.
 fn localise_crash(exe: &str, id: &str, tier: Tier, idx: usize) -> Result<Value, String> {
-    let jpath = format!("{}/hx/target/journal-{}-{}-{}.tmp", VERIF, id, std::process::id(), idx);
+    let jpath = format!("{}/hx/target/journal-{}-{}-{}.tmp", verif_root(), id, std::process::id(), idx);
     let _ = std::fs::remove_file(&jpath);
     let status = Command::new(exe)
         .arg("worker")
@@ -334,7 +338,7 @@ pub fn run_check(check: &dyn Check, tier: Tier, exe: &str) -> RunOutcome {
     }
 
     // ---- classify against the known findings
-    let entries = match kf::load(&format!("{}/known_findings.json", VERIF)) {
+    let entries = match kf::load(&format!("{}/known_findings.json", verif_root())) {
         Ok(e) => e,
         Err(e) => {
             machinery.push(e);
@@ -369,7 +373,7 @@ pub fn run_check(check: &dyn Check, tier: Tier, exe: &str) -> RunOutcome {
     }
 
     // ---- report
-    let _ = std::fs::create_dir_all(format!("{}/replays", VERIF));
+    let _ = std::fs::create_dir_all(format!("{}/replays", verif_root()));
     let mut printed: HashSet<String> = HashSet::new();
     let mut nviol = 0;
     for f in &fresh {
@@ -378,7 +382,7 @@ pub fn run_check(check: &dyn Check, tier: Tier, exe: &str) -> RunOutcome {
         let mut hsh = rubato::verif::Hasher::default();
         hsh.bytes(key.as_bytes());
         hsh.bytes(f["history"].as_str().unwrap_or("").as_bytes());
-        let path = format!("{}/replays/{}-{:016x}.json", VERIF, id, hsh.0);
+        let path = format!("{}/replays/{}-{:016x}.json", verif_root(), id, hsh.0);
         // one line and one replay file per class (signature, kind): BFS order makes the first
         // one the shortest; the total count is in the evidence
         let class = format!("{}|{}", f["sig"].as_str().unwrap_or(""), f["cfg"]["kind"].as_str().unwrap_or(""));
@@ -465,8 +469,8 @@ pub fn run_check(check: &dyn Check, tier: Tier, exe: &str) -> RunOutcome {
         "coverage": Value::Object(cov), "assumptions": check.assumptions(),
         "wall_s": (wall * 100.0).round() / 100.0, "violations": fresh.len(),
     });
-    let _ = std::fs::create_dir_all(format!("{}/evidence", VERIF));
-    if let Err(e) = std::fs::write(format!("{}/evidence/{}.json", VERIF, id), serde_json::to_string_pretty(&ev).unwrap() + "\n") {
+    let _ = std::fs::create_dir_all(format!("{}/evidence", verif_root()));
+    if let Err(e) = std::fs::write(format!("{}/evidence/{}.json", verif_root(), id), serde_json::to_string_pretty(&ev).unwrap() + "\n") {
         machinery.push(format!("cannot write evidence: {}", e));
     }
 
